@@ -281,4 +281,12 @@ def _it_check_under_c03():
     return type('ItCheck_C03', (ItCheck,), dict(prop='C03'))
 
 
-CONTRACTS = [ComputeResidual, ComputeResidualIMEX, ComputeResidualMass, CheckConvergence, CheckIterationStatus, _it_check_under_c03()]
+def _logged_iteration_count_under_c03():
+    # "the logged iteration count equals the number of iterations actually performed": the record written by DefaultHooks.post_step is the
+    # step's iteration counter (C14 contract), the counter counts iterations (it_check contract above)
+    from contracts.C14_stats import DefaultPostStep
+
+    return type('DefaultPostStep_C03', (DefaultPostStep,), dict(prop='C03'))
+
+
+CONTRACTS = [ComputeResidual, ComputeResidualIMEX, ComputeResidualMass, CheckConvergence, CheckIterationStatus, _it_check_under_c03(), _logged_iteration_count_under_c03()]
